@@ -233,3 +233,62 @@ CHECKS['C06'] = dict(
     assumptions=['spilling earlier than the limit is accepted', 'spill timing is only observed without a pool (with a pool the spill is asynchronous)'],
     budget={'quick': 300, 'thorough': 2400},
 )
+
+def _sched(flavor):
+    return H('h_sched.c', flavor, exclude=['mtbl/threadpool.c'], extra=[('vsched.c', 'nosan')], hflags=['-include', 'vsched.h'])
+
+def _sjobs(flavor, cfgs, tiers=None, prefix=''):
+    out = []
+    for c in cfgs:
+        d = dict(name=prefix + c.replace(' ', '_'), spec=_sched(flavor), args=c.split())
+        if tiers:
+            d['tiers'] = tiers
+        out.append(d)
+    return out
+
+_C13_QUICK = [
+    'pool-ordered 1 0 2', 'pool-ordered 1 1 3', 'pool-ordered 1 2 3', 'pool-ordered 2 3 2',
+    'pool-unordered 1 1 3', 'pool-unordered 1 3 2', 'pool-unordered 2 3 2',
+    'pool2-ordered 2 1 2', 'pool2-unordered 1 2 2', 'pool2t-unordered 2 1 1', 'pool2t-ordered 2 1 1',
+    'writer 1 0 2', 'writer 1 2 3', 'writer 2 3 2', 'writer 2 2 2 comp=3', 'writer2 2 2 1', 'writer2t 2 1 1',
+    'sorter 1 2 3', 'sorter 2 3 2', 'sorter 2 0 2',
+]
+_C13_THOROUGH = [
+    'pool-ordered 1 3 3', 'pool-ordered 2 3 3', 'pool-unordered 2 3 3', 'pool-ordered 2 4 2', 'pool-unordered 2 4 2', 'pool-ordered 3 3 2', 'pool-unordered 3 3 2',
+    'pool-unordered 1 2 2 spur=1', 'pool-unordered 2 2 2 spur=1', 'pool-ordered 2 2 2 spur=1',
+    'pool-ordered 1 2 2 unlockpts', 'pool-unordered 2 2 1 unlockpts',
+    'writer 2 3 3', 'writer 2 4 2', 'writer 3 3 2', 'writer 2 2 2 spur=1', 'sorter 2 3 3', 'sorter 2 2 2 spur=1',
+    'pool2-ordered 2 2 1', 'pool2-ordered 1 2 2', 'pool2-unordered 2 2 1', 'pool2t-unordered 2 1 2', 'pool2t-ordered 1 2 1', 'writer2t 2 1 2', 'writer2 2 2 2',
+    'pool2t-unordered 2 2 1', 'writer2t 2 2 1',
+]
+CHECKS['C13'] = dict(
+    level=MC, engine='vsched',
+    technique='stateless model checking of the real threadpool.c under a deterministic scheduler that owns every pthread operation: depth-first enumeration of all schedules with at most B preemptions (iterative context bounding) and at most S spurious wake-ups, with happens-before state caching; deadlock detection built into the scheduler',
+    text='The pool core (1-2 result handlers, ordered and unordered, one and two caller threads), real pooled writers (one, two sharing a pool, two caller threads) and real pooled sorters run as serialised OS threads whose every mutex/condition/create/join operation is a scheduling point owned by the explorer. Every schedule within the preemption bound is executed; per execution: every job result delivered exactly once (in order when ordered), never more live workers than the pool maximum, writer output byte-identical to the pool-less writer, sorter output equal to the reference, all threads finished, no misuse of a primitive; "no enabled thread" is reported as deadlock with the schedule. Switches at blocking points are free and all explored; equivalent states (same happens-before trace) are expanded once.',
+    jobs=_sjobs('asan', _C13_QUICK) + _sjobs('asan', _C13_THOROUGH, tiers=['thorough'], prefix='T:'),
+    states_key='states', transitions_key='transitions', traces_key='executions',
+    rule='states = distinct happens-before states expanded at choice points; transitions = scheduling/choice points executed; signature = (delivery order observed, #preemptions, #spurious wake-ups)',
+    bounds={'quick': 'P in {1,2}, J in {0..3}; preemption bound 3 for P=1, 2 for P=2/J=3 and two clients of one caller, 1 for two caller threads; no spurious wake-ups (per-job arguments: scenario P J bound)',
+            'thorough': 'adds J=4, P=3, bound 3 on P=2/J=3, spurious wake-ups <=1, scheduling points at unlock on small configurations'},
+    nonzero=['states', 'executions', 'executions_with_preemption', 'cond_waits', 'blocking_joins'],
+    assumptions=['sequentially consistent interleavings at synchronisation operations (sufficient for data-race-free code; races are C14)', 'the scheduler\'s model of mutex/condition semantics (cross-checked by the free-running pass of C14)', 'happens-before caching is sound for data-race-free programs'],
+    budget={'quick': 420, 'thorough': 3000},
+)
+_C14_QUICK = ['reader-shared 2 0 1', 'reader-shared 3 1 1', 'reader-shared 3 2 1',
+              'pool-ordered 2 3 1', 'pool-unordered 2 3 1', 'pool2t-unordered 2 1 1', 'pool2t-ordered 2 1 1',
+              'writer 2 3 1', 'writer 1 3 1', 'writer2 2 2 1', 'writer2t 2 1 1', 'sorter 2 3 1', 'sorter-destroy 2 2 1']
+_C14_THOROUGH = ['pool-ordered 2 3 2', 'pool-unordered 2 3 2', 'writer 2 3 2', 'writer 2 4 1', 'sorter 2 3 2', 'sorter-destroy 2 3 2', 'reader-shared 4 1 1', 'pool2t-unordered 2 1 2', 'writer2t 2 1 2', 'writer2 2 2 2']
+_C14_FREE = ['writer 2 4 0 free=40', 'writer2t 2 3 0 free=40', 'sorter 2 4 0 free=40', 'pool2t-unordered 2 3 0 free=40', 'reader-shared 4 1 0 free=20']
+CHECKS['C14'] = dict(
+    level=MC, engine='vsched',
+    technique='the C13 schedule explorer with the code under ThreadSanitizer: the scheduler is uninstrumented (its hand-offs are invisible to the race detector) and announces exactly the program\'s own release/acquire edges, so each explored schedule yields TSan\'s happens-before verdict for that synchronisation order; plus a free-running cross-check',
+    text='Pooled writers/sorters (also two of them sharing a pool from two caller threads) and 2-4 threads iterating and querying one open reader (all four iterator kinds, verify_checksums on, compressed and uncompressed) are executed under every schedule with <=1 (thorough <=2) preemptions with the library compiled by clang -fsanitize=thread. A race is a pair of conflicting accesses unordered by the program\'s own synchronisation; whether such a pair exists depends on the synchronisation order, which is what the explorer enumerates. The shared-reader bodies contain no synchronisation, so their verdict is schedule independent.',
+    jobs=_sjobs('tsan', _C14_QUICK) + _sjobs('tsan', _C14_THOROUGH, tiers=['thorough'], prefix='T:') + _sjobs('tsan', _C14_FREE, prefix='free:'),
+    states_key='states', transitions_key='transitions', traces_key='executions',
+    rule='as C13; data races are counted through __tsan_on_report',
+    bounds={'quick': 'preemption bound 1 (0 for the largest two-caller scenario); 5 free-running bodies x 20-40 repetitions x 16 processes',
+            'thorough': 'preemption bound 2'},
+    nonzero=['states', 'executions', 'free_running_executions'],
+    assumptions=['TSan sees accesses that execute in an explored schedule; its shadow history is finite', 'weak-memory reorderings are outside the model: the happens-before analysis is what covers unsynchronised accesses'],
+    budget={'quick': 420, 'thorough': 3000},
+)
